@@ -352,3 +352,36 @@ pub unsafe fn i_drop_send_race<RW: QueueRW<Pay>>(n: usize, mpmc: bool) {
     kani_cover!(ENV_TAKEN[2] > 0 && left == 0, "both senders left");
     mem::forget(w);
 }
+
+// ---------------------------------------------------------------------------------------------
+// I6: add_stream under interference (C10)
+
+/// InnerRecv::add_stream on stream i while producers publish and (if the parent stream is shared)
+/// siblings of the parent consume between its shared accesses.  Obligation, checked at the instant the
+/// new stream list becomes visible: the new stream's position lies inside the window [head - N, head];
+/// and afterwards: it is a position the parent held during the call.
+pub unsafe fn i_add_stream<RW: QueueRW<Pay>>(n: usize, budget: usize, shared: bool) {
+    let w = World::<RW>::arbitrary(n, 1, false, false);
+    let a0 = w.a;
+    rt::assume(if shared { a0.ncons[0] >= 2 } else { a0.ncons[0] == 1 });
+    let rx = mk_recv(&w, 0);
+    let en: u32 = (1 << A_CONSUME) | (1 << A_PUBLISH);
+    env_reset(&w, false, budget, en);
+    env_set_me_reader(0, &rx.reader);
+    G_ADDING_STREAM = true;
+    let p0 = a0.pos[0];
+    rt::ENV_MODE = ENV_PROTOCOL;
+    let rx2 = rx.add_stream();
+    rt::ENV_MODE = ENV_OFF;
+    G_ADDING_STREAM = false;
+    let p1 = rx.reader.vf_pos();
+    let np = rx2.reader.vf_pos();
+    assert!(np >= p0 && np <= p1, "C10: the new stream starts at a position its parent held during the call");
+    if !shared {
+        assert!(np == p1, "C10: with no other consumer of the parent running, the new stream starts at the parent's current position");
+    }
+    kani_cover!(ENV_TAKEN[0] > 0, "producer published during add_stream");
+    mem::forget(rx);
+    mem::forget(rx2);
+    mem::forget(w);
+}
